@@ -444,7 +444,15 @@ func c15Case(run *vf.Run, box *etcdbox.Box, idx int) {
 		// name the suspected defect precisely: with a nil target the whole partition table equals the reference
 		// computed with every partition attributed to one database name B that is not its own
 		staleB := ""
-		if !mode.withTarget && len(dPart) > 0 {
+		onlyCollision := true
+		for _, d := range dPart {
+			if d.What != "key-collision-makes-live-object-skippable" {
+				onlyCollision = false
+			}
+		}
+		// (differences that are all the recorded key collision need no second explanation: a catalog whose partitions
+		// sit in one database also equals the 'everything under database b' reference)
+		if !mode.withTarget && len(dPart) > 0 && !onlyCollision {
 			cands := []string{reader.TomeObject}
 			for _, d := range snap.DBs {
 				cands = append(cands, d.Name)
